@@ -209,7 +209,7 @@ def searchHistory (core : CoreProg) (circ : Circuit) (inputs : List InputBinding
   let nIn := inputs.length
   let pool := programConstants core
   let rec go (fuel : Nat) (s : UInt64) (k : Nat) (vals : List I32) (mem : Nat → I32) (outs : Array SigMap)
-      (hist : List (List (String × Int))) : Nat × List HistMismatch :=
+      (hist : List (List (String × Int))) (prevInput : String → Option I32) : Nat × List HistMismatch :=
     match fuel with
     | 0 => (k, [])
     | f + 1 =>
@@ -220,12 +220,30 @@ def searchHistory (core : CoreProg) (circ : Circuit) (inputs : List InputBinding
       -- memoise the new state on the finite set of cells
       let memArr := (Array.range core.mems.size).map mem'
       let memF : Nat → I32 := fun m => memArr.getD m 0
-      let env1 : Env := { env0 with mem := memF }
-      let want := evalNodes core.nodes env1
+      -- A single input change may reach a cell's data and its enable along paths of different latency:
+      -- while the enable is still (or already) seen positive the gate may pass the *new* data for a tick.
+      -- When a gated cell's enable falls in this step, the value it holds afterwards may therefore be the
+      -- data under the new inputs as well; both outcomes satisfy C03 ("the last value written").
+      let prevEnv : Env := { env0 with input := prevInput }
+      let prevVals := evalNodes core.nodes prevEnv
+      let newVals := evalNodes core.nodes env0
+      -- per cell: the acceptable next values (primary first)
+      let cands : List (List I32) := (List.range core.mems.size).map (fun m =>
+        match core.mems[m]? with
+        | some cell =>
+          match cell.writes with
+          | [.gated d e] =>
+            let wasOn := (argVal core.nodes prevVals e).toInt > 0
+            let nowZero := (argVal core.nodes newVals e) == 0
+            if wasOn && nowZero && argVal core.nodes newVals d != memF m then [memF m, argVal core.nodes newVals d] else [memF m]
+          | _ => [memF m]
+        | none => [memF m])
+      -- all combinations (cells are few)
+      let combos : List (List I32) := cands.foldr (fun opts acc => opts.flatMap (fun v => acc.map (fun rest => v :: rest))) [[]]
       let outs' := runTicks circ inp outs hold
       let g : Nat → SigMap := fun p => outs'.getD p []
       let hist' := hist ++ [bind.map (fun (b, v) => (b.name, v.toInt))]
-      let vals0 := evalNodes core.nodes env0
+      let vals0 := newVals
       let av := fun a => (argVal core.nodes vals0 a).toInt
       let cellInfo : List (Nat × String × Int × Int × Int × Int) := (List.range core.mems.size).filterMap (fun m =>
         match core.mems[m]? with
@@ -236,15 +254,32 @@ def searchHistory (core : CoreProg) (circ : Circuit) (inputs : List InputBinding
           | [.latch v st r p] => some (m, if p then "sr_latch" else "rs_latch", (mem m).toInt, av v, av st, av r)
           | _ => none
         | none => none)
-      let bad := obs.filterMap (fun o =>
-        let w := renameMap ren (want.getD o.node [])
-        let seen : SigMap := if o.atAnchor then circ.observe g o.idx else g o.idx
-        let (e, got) := match o.sig with
-          | some sg => ([(sg, w.get sg)], [(sg, seen.get sg)])
-          | none => (w, seen)
-        let es := SigMap.sorted e
-        let gs := SigMap.sorted got
-        if es == gs then none else some { name := o.name, step := k, cells := cellInfo, history := hist', expected := es, got := gs : HistMismatch })
+      let compareWith (memX : Nat → I32) : List HistMismatch :=
+        let env1 : Env := { env0 with mem := memX }
+        let want := evalNodes core.nodes env1
+        obs.filterMap (fun o =>
+          let w := renameMap ren (want.getD o.node [])
+          let seen : SigMap := if o.atAnchor then circ.observe g o.idx else g o.idx
+          let (e, got) := match o.enable with
+            | some a =>
+              let expectOn := (argVal core.nodes want a).toInt > 0
+              let cond := match circ.kind o.idx with | .controlled c => c | _ => none
+              ([("enabled", boolI expectOn)], [("enabled", boolI (evalEnabled cond (circ.readR g o.idx) (circ.readG g o.idx)))])
+            | none =>
+            match o.sig with
+            | some sg => ([(sg, w.get sg)], [(sg, seen.get sg)])
+            | none => (w, seen)
+          let es := SigMap.sorted e
+          let gs := SigMap.sorted got
+          if es == gs then none else some { name := o.name, step := k, cells := cellInfo, history := hist', expected := es, got := gs : HistMismatch })
+      let bad0 := compareWith memF
+      let tryCombo (c : List I32) : Option (Nat → I32) :=
+        let f : Nat → I32 := fun m => c.getD m 0
+        if (compareWith f).isEmpty then some f else none
+      let altOk : Option (Nat → I32) := if bad0.isEmpty then none else (combos.take 16).findSome? tryCombo
+      let (bad, memNext) := if bad0.isEmpty then (bad0, memF) else match altOk with
+        | some f => ([], f)
+        | none => (bad0, memF)
       if !bad.isEmpty then (k + 1, bad.take 2) else
       -- change one input
       let s1 := lcg s
@@ -253,8 +288,8 @@ def searchHistory (core : CoreProg) (circ : Circuit) (inputs : List InputBinding
       -- small values make enables / thresholds toggle often
       let v' : Int := if (s2 >>> 40).toNat % 3 != 0 || pool.contains v then v else (v % 7)
       let vals' := vals.set which (i32 v')
-      go f s2 (k + 1) vals' memF outs' hist'
-  go steps seed 0 (inputs.map (·.lit)) (fun _ => 0) (circ.initA (fun _ => none)) []
+      go f s2 (k + 1) vals' memNext outs' hist' env0.input
+  go steps seed 0 (inputs.map (·.lit)) (fun _ => 0) (circ.initA (fun _ => none)) [] (fun _ => none)
 
 /-- C04: for an `always` cell observed at `o`, find `L ∈ 1..maxL` with `value(t+L) = f(value t)` for all
 `t < window`; returns the first `L` that works. `f` is the Core write rule with the cell bound to `x`. -/
